@@ -35,27 +35,27 @@ macro "pair_tac " "[" ds:ident,* "]" : tactic =>
 
 /-! ## Vec2 / Vec3 / Vec4: normalize, normalizeExc, normalizeNonNull and the value forms -/
 
-theorem V2_length_zero (tmin : α) (ht : 0 < tmin) (sqrt : α → α) : Gen.V2.length tmin sqrt (⟨0, 0⟩ : V2 α) = 0 := by
+theorem V2_length_zero (tmin tmax : α) (ht : 0 < tmin) (sqrt : α → α) : Gen.V2.length tmin tmax sqrt (⟨0, 0⟩ : V2 α) = 0 := by
   simp [Gen.V2.length, sabs, ht]
 
 /-- `normalizedExc` returns ⇒ `normalized` and `normalizedNonNull` return the same vector -/
-theorem V2_normalizedExc_ok (tmin : α) (sqrt : α → α) (a y : V2 α) (h : Gen.C07.V2.normalizedExc tmin sqrt a = .ok y) :
-    Gen.C07.V2.normalized tmin sqrt a = y ∧ Gen.C07.V2.normalizedNonNull tmin sqrt a = y := by
+theorem V2_normalizedExc_ok (tmin tmax : α) (sqrt : α → α) (a y : V2 α) (h : Gen.C07.V2.normalizedExc tmin tmax sqrt a = .ok y) :
+    Gen.C07.V2.normalized tmin tmax sqrt a = y ∧ Gen.C07.V2.normalizedNonNull tmin tmax sqrt a = y := by
   simp only [Gen.C07.V2.normalizedExc, Gen.C07.V2.normalized, Gen.C07.V2.normalizedNonNull] at h ⊢
   split_ifs at h ⊢ with h0
   exact ⟨Except.ok.inj h, Except.ok.inj h⟩
 
 /-- `normalizedExc` throws `std::domain_error`, exactly when `length () == 0` -/
-theorem V2_normalizedExc_error (tmin : α) (sqrt : α → α) (a : V2 α) (k : Exc) :
-    Gen.C07.V2.normalizedExc tmin sqrt a = .error k ↔ (k = Exc.domainError ∧ Gen.V2.length tmin sqrt a = 0) := by
+theorem V2_normalizedExc_error (tmin tmax : α) (sqrt : α → α) (a : V2 α) (k : Exc) :
+    Gen.C07.V2.normalizedExc tmin tmax sqrt a = .error k ↔ (k = Exc.domainError ∧ Gen.V2.length tmin tmax sqrt a = 0) := by
   simp only [Gen.C07.V2.normalizedExc]
   split_ifs with h0
   · simp [h0, eq_comm]
   · simp [h0]
 
 /-- full strength: the checked form throws exactly when the unchecked form reports failure (returns the zero vector) -/
-theorem V2_normalized_failure (tmin : α) (ht : 0 < tmin) (sqrt : α → α) (a : V2 α) :
-    Gen.C07.V2.normalizedExc tmin sqrt a = .error Exc.domainError ↔ Gen.C07.V2.normalized tmin sqrt a = ⟨0, 0⟩ := by
+theorem V2_normalized_failure (tmin tmax : α) (ht : 0 < tmin) (sqrt : α → α) (a : V2 α) :
+    Gen.C07.V2.normalizedExc tmin tmax sqrt a = .error Exc.domainError ↔ Gen.C07.V2.normalized tmin tmax sqrt a = ⟨0, 0⟩ := by
   rw [V2_normalizedExc_error]
   simp only [Gen.C07.V2.normalized, true_and]
   split_ifs with h0
@@ -64,67 +64,67 @@ theorem V2_normalized_failure (tmin : α) (ht : 0 < tmin) (sqrt : α → α) (a 
     intro hz
     apply h0
     have : a = ⟨0, 0⟩ := by cases a; simp_all
-    rw [this]; exact V2_length_zero tmin ht sqrt
+    rw [this]; exact V2_length_zero tmin tmax ht sqrt
 
 /-- in-place forms: `normalizeExc` returns ⇒ `normalize` and `normalizeNonNull` leave the same vector -/
-theorem V2_normalizeExc_ok (tmin : α) (sqrt : α → α) (a y : V2 α) (h : Gen.C07.V2.normalizeExc tmin sqrt a = .ok y) :
-    Gen.C07.V2.normalize tmin sqrt a = y ∧ Gen.C07.V2.normalizeNonNull tmin sqrt a = y := by
+theorem V2_normalizeExc_ok (tmin tmax : α) (sqrt : α → α) (a y : V2 α) (h : Gen.C07.V2.normalizeExc tmin tmax sqrt a = .ok y) :
+    Gen.C07.V2.normalize tmin tmax sqrt a = y ∧ Gen.C07.V2.normalizeNonNull tmin tmax sqrt a = y := by
   simp only [Gen.C07.V2.normalizeExc, Gen.C07.V2.normalize, Gen.C07.V2.normalizeNonNull] at h ⊢
   split_ifs at h ⊢ with h0
   exact ⟨Except.ok.inj h, Except.ok.inj h⟩
 
 /-- `normalizeExc` throws `std::domain_error` exactly when `length () == 0`, which is exactly when `normalize`
 reports failure by leaving the vector untouched -/
-theorem V2_normalizeExc_error (tmin : α) (sqrt : α → α) (a : V2 α) (k : Exc) :
-    Gen.C07.V2.normalizeExc tmin sqrt a = .error k ↔ (k = Exc.domainError ∧ Gen.V2.length tmin sqrt a = 0) := by
+theorem V2_normalizeExc_error (tmin tmax : α) (sqrt : α → α) (a : V2 α) (k : Exc) :
+    Gen.C07.V2.normalizeExc tmin tmax sqrt a = .error k ↔ (k = Exc.domainError ∧ Gen.V2.length tmin tmax sqrt a = 0) := by
   simp only [Gen.C07.V2.normalizeExc]
   split_ifs with h0
   · simp [h0, eq_comm]
   · simp [h0]
 
-theorem V2_normalize_failure (tmin : α) (sqrt : α → α) (a : V2 α) (h : Gen.V2.length tmin sqrt a = 0) :
-    Gen.C07.V2.normalize tmin sqrt a = a := by
+theorem V2_normalize_failure (tmin tmax : α) (sqrt : α → α) (a : V2 α) (h : Gen.V2.length tmin tmax sqrt a = 0) :
+    Gen.C07.V2.normalize tmin tmax sqrt a = a := by
   simp only [Gen.C07.V2.normalize]
   rw [if_pos h]
 
 /-- the in-place and the value forms are the same functions (three duplicated bodies each) -/
-theorem V2_inplace_eq_value (tmin : α) (sqrt : α → α) (a : V2 α) :
-    Gen.C07.V2.normalizeExc tmin sqrt a = Gen.C07.V2.normalizedExc tmin sqrt a ∧
-    Gen.C07.V2.normalizeNonNull tmin sqrt a = Gen.C07.V2.normalizedNonNull tmin sqrt a ∧
-    (Gen.V2.length tmin sqrt a ≠ 0 → Gen.C07.V2.normalize tmin sqrt a = Gen.C07.V2.normalized tmin sqrt a) := by
+theorem V2_inplace_eq_value (tmin tmax : α) (sqrt : α → α) (a : V2 α) :
+    Gen.C07.V2.normalizeExc tmin tmax sqrt a = Gen.C07.V2.normalizedExc tmin tmax sqrt a ∧
+    Gen.C07.V2.normalizeNonNull tmin tmax sqrt a = Gen.C07.V2.normalizedNonNull tmin tmax sqrt a ∧
+    (Gen.V2.length tmin tmax sqrt a ≠ 0 → Gen.C07.V2.normalize tmin tmax sqrt a = Gen.C07.V2.normalized tmin tmax sqrt a) := by
   refine ⟨rfl, rfl, fun h => ?_⟩
   simp only [Gen.C07.V2.normalize, Gen.C07.V2.normalized]
   rw [if_neg h, if_neg h]
 
 /-- well-conditioned input (non-zero length) never throws, and then all three variants agree -/
-theorem V2_normalizedExc_never (tmin : α) (sqrt : α → α) (a : V2 α) (h : Gen.V2.length tmin sqrt a ≠ 0) :
-    Gen.C07.V2.normalizedExc tmin sqrt a = .ok (Gen.C07.V2.normalized tmin sqrt a) ∧
-    Gen.C07.V2.normalizedNonNull tmin sqrt a = Gen.C07.V2.normalized tmin sqrt a := by
+theorem V2_normalizedExc_never (tmin tmax : α) (sqrt : α → α) (a : V2 α) (h : Gen.V2.length tmin tmax sqrt a ≠ 0) :
+    Gen.C07.V2.normalizedExc tmin tmax sqrt a = .ok (Gen.C07.V2.normalized tmin tmax sqrt a) ∧
+    Gen.C07.V2.normalizedNonNull tmin tmax sqrt a = Gen.C07.V2.normalized tmin tmax sqrt a := by
   simp only [Gen.C07.V2.normalizedExc, Gen.C07.V2.normalized, Gen.C07.V2.normalizedNonNull]
   rw [if_neg h, if_neg h]
   exact ⟨rfl, rfl⟩
 
-theorem V3_length_zero (tmin : α) (ht : 0 < tmin) (sqrt : α → α) : Gen.V3.length tmin sqrt (⟨0, 0, 0⟩ : V3 α) = 0 := by
+theorem V3_length_zero (tmin tmax : α) (ht : 0 < tmin) (sqrt : α → α) : Gen.V3.length tmin tmax sqrt (⟨0, 0, 0⟩ : V3 α) = 0 := by
   simp [Gen.V3.length, sabs, ht]
 
 /-- `normalizedExc` returns ⇒ `normalized` and `normalizedNonNull` return the same vector -/
-theorem V3_normalizedExc_ok (tmin : α) (sqrt : α → α) (a y : V3 α) (h : Gen.C07.V3.normalizedExc tmin sqrt a = .ok y) :
-    Gen.C07.V3.normalized tmin sqrt a = y ∧ Gen.C07.V3.normalizedNonNull tmin sqrt a = y := by
+theorem V3_normalizedExc_ok (tmin tmax : α) (sqrt : α → α) (a y : V3 α) (h : Gen.C07.V3.normalizedExc tmin tmax sqrt a = .ok y) :
+    Gen.C07.V3.normalized tmin tmax sqrt a = y ∧ Gen.C07.V3.normalizedNonNull tmin tmax sqrt a = y := by
   simp only [Gen.C07.V3.normalizedExc, Gen.C07.V3.normalized, Gen.C07.V3.normalizedNonNull] at h ⊢
   split_ifs at h ⊢ with h0
   exact ⟨Except.ok.inj h, Except.ok.inj h⟩
 
 /-- `normalizedExc` throws `std::domain_error`, exactly when `length () == 0` -/
-theorem V3_normalizedExc_error (tmin : α) (sqrt : α → α) (a : V3 α) (k : Exc) :
-    Gen.C07.V3.normalizedExc tmin sqrt a = .error k ↔ (k = Exc.domainError ∧ Gen.V3.length tmin sqrt a = 0) := by
+theorem V3_normalizedExc_error (tmin tmax : α) (sqrt : α → α) (a : V3 α) (k : Exc) :
+    Gen.C07.V3.normalizedExc tmin tmax sqrt a = .error k ↔ (k = Exc.domainError ∧ Gen.V3.length tmin tmax sqrt a = 0) := by
   simp only [Gen.C07.V3.normalizedExc]
   split_ifs with h0
   · simp [h0, eq_comm]
   · simp [h0]
 
 /-- full strength: the checked form throws exactly when the unchecked form reports failure (returns the zero vector) -/
-theorem V3_normalized_failure (tmin : α) (ht : 0 < tmin) (sqrt : α → α) (a : V3 α) :
-    Gen.C07.V3.normalizedExc tmin sqrt a = .error Exc.domainError ↔ Gen.C07.V3.normalized tmin sqrt a = ⟨0, 0, 0⟩ := by
+theorem V3_normalized_failure (tmin tmax : α) (ht : 0 < tmin) (sqrt : α → α) (a : V3 α) :
+    Gen.C07.V3.normalizedExc tmin tmax sqrt a = .error Exc.domainError ↔ Gen.C07.V3.normalized tmin tmax sqrt a = ⟨0, 0, 0⟩ := by
   rw [V3_normalizedExc_error]
   simp only [Gen.C07.V3.normalized, true_and]
   split_ifs with h0
@@ -133,67 +133,67 @@ theorem V3_normalized_failure (tmin : α) (ht : 0 < tmin) (sqrt : α → α) (a 
     intro hz
     apply h0
     have : a = ⟨0, 0, 0⟩ := by cases a; simp_all
-    rw [this]; exact V3_length_zero tmin ht sqrt
+    rw [this]; exact V3_length_zero tmin tmax ht sqrt
 
 /-- in-place forms: `normalizeExc` returns ⇒ `normalize` and `normalizeNonNull` leave the same vector -/
-theorem V3_normalizeExc_ok (tmin : α) (sqrt : α → α) (a y : V3 α) (h : Gen.C07.V3.normalizeExc tmin sqrt a = .ok y) :
-    Gen.C07.V3.normalize tmin sqrt a = y ∧ Gen.C07.V3.normalizeNonNull tmin sqrt a = y := by
+theorem V3_normalizeExc_ok (tmin tmax : α) (sqrt : α → α) (a y : V3 α) (h : Gen.C07.V3.normalizeExc tmin tmax sqrt a = .ok y) :
+    Gen.C07.V3.normalize tmin tmax sqrt a = y ∧ Gen.C07.V3.normalizeNonNull tmin tmax sqrt a = y := by
   simp only [Gen.C07.V3.normalizeExc, Gen.C07.V3.normalize, Gen.C07.V3.normalizeNonNull] at h ⊢
   split_ifs at h ⊢ with h0
   exact ⟨Except.ok.inj h, Except.ok.inj h⟩
 
 /-- `normalizeExc` throws `std::domain_error` exactly when `length () == 0`, which is exactly when `normalize`
 reports failure by leaving the vector untouched -/
-theorem V3_normalizeExc_error (tmin : α) (sqrt : α → α) (a : V3 α) (k : Exc) :
-    Gen.C07.V3.normalizeExc tmin sqrt a = .error k ↔ (k = Exc.domainError ∧ Gen.V3.length tmin sqrt a = 0) := by
+theorem V3_normalizeExc_error (tmin tmax : α) (sqrt : α → α) (a : V3 α) (k : Exc) :
+    Gen.C07.V3.normalizeExc tmin tmax sqrt a = .error k ↔ (k = Exc.domainError ∧ Gen.V3.length tmin tmax sqrt a = 0) := by
   simp only [Gen.C07.V3.normalizeExc]
   split_ifs with h0
   · simp [h0, eq_comm]
   · simp [h0]
 
-theorem V3_normalize_failure (tmin : α) (sqrt : α → α) (a : V3 α) (h : Gen.V3.length tmin sqrt a = 0) :
-    Gen.C07.V3.normalize tmin sqrt a = a := by
+theorem V3_normalize_failure (tmin tmax : α) (sqrt : α → α) (a : V3 α) (h : Gen.V3.length tmin tmax sqrt a = 0) :
+    Gen.C07.V3.normalize tmin tmax sqrt a = a := by
   simp only [Gen.C07.V3.normalize]
   rw [if_pos h]
 
 /-- the in-place and the value forms are the same functions (three duplicated bodies each) -/
-theorem V3_inplace_eq_value (tmin : α) (sqrt : α → α) (a : V3 α) :
-    Gen.C07.V3.normalizeExc tmin sqrt a = Gen.C07.V3.normalizedExc tmin sqrt a ∧
-    Gen.C07.V3.normalizeNonNull tmin sqrt a = Gen.C07.V3.normalizedNonNull tmin sqrt a ∧
-    (Gen.V3.length tmin sqrt a ≠ 0 → Gen.C07.V3.normalize tmin sqrt a = Gen.C07.V3.normalized tmin sqrt a) := by
+theorem V3_inplace_eq_value (tmin tmax : α) (sqrt : α → α) (a : V3 α) :
+    Gen.C07.V3.normalizeExc tmin tmax sqrt a = Gen.C07.V3.normalizedExc tmin tmax sqrt a ∧
+    Gen.C07.V3.normalizeNonNull tmin tmax sqrt a = Gen.C07.V3.normalizedNonNull tmin tmax sqrt a ∧
+    (Gen.V3.length tmin tmax sqrt a ≠ 0 → Gen.C07.V3.normalize tmin tmax sqrt a = Gen.C07.V3.normalized tmin tmax sqrt a) := by
   refine ⟨rfl, rfl, fun h => ?_⟩
   simp only [Gen.C07.V3.normalize, Gen.C07.V3.normalized]
   rw [if_neg h, if_neg h]
 
 /-- well-conditioned input (non-zero length) never throws, and then all three variants agree -/
-theorem V3_normalizedExc_never (tmin : α) (sqrt : α → α) (a : V3 α) (h : Gen.V3.length tmin sqrt a ≠ 0) :
-    Gen.C07.V3.normalizedExc tmin sqrt a = .ok (Gen.C07.V3.normalized tmin sqrt a) ∧
-    Gen.C07.V3.normalizedNonNull tmin sqrt a = Gen.C07.V3.normalized tmin sqrt a := by
+theorem V3_normalizedExc_never (tmin tmax : α) (sqrt : α → α) (a : V3 α) (h : Gen.V3.length tmin tmax sqrt a ≠ 0) :
+    Gen.C07.V3.normalizedExc tmin tmax sqrt a = .ok (Gen.C07.V3.normalized tmin tmax sqrt a) ∧
+    Gen.C07.V3.normalizedNonNull tmin tmax sqrt a = Gen.C07.V3.normalized tmin tmax sqrt a := by
   simp only [Gen.C07.V3.normalizedExc, Gen.C07.V3.normalized, Gen.C07.V3.normalizedNonNull]
   rw [if_neg h, if_neg h]
   exact ⟨rfl, rfl⟩
 
-theorem V4_length_zero (tmin : α) (ht : 0 < tmin) (sqrt : α → α) : Gen.V4.length tmin sqrt (⟨0, 0, 0, 0⟩ : V4 α) = 0 := by
+theorem V4_length_zero (tmin tmax : α) (ht : 0 < tmin) (sqrt : α → α) : Gen.V4.length tmin tmax sqrt (⟨0, 0, 0, 0⟩ : V4 α) = 0 := by
   simp [Gen.V4.length, sabs, ht]
 
 /-- `normalizedExc` returns ⇒ `normalized` and `normalizedNonNull` return the same vector -/
-theorem V4_normalizedExc_ok (tmin : α) (sqrt : α → α) (a y : V4 α) (h : Gen.C07.V4.normalizedExc tmin sqrt a = .ok y) :
-    Gen.C07.V4.normalized tmin sqrt a = y ∧ Gen.C07.V4.normalizedNonNull tmin sqrt a = y := by
+theorem V4_normalizedExc_ok (tmin tmax : α) (sqrt : α → α) (a y : V4 α) (h : Gen.C07.V4.normalizedExc tmin tmax sqrt a = .ok y) :
+    Gen.C07.V4.normalized tmin tmax sqrt a = y ∧ Gen.C07.V4.normalizedNonNull tmin tmax sqrt a = y := by
   simp only [Gen.C07.V4.normalizedExc, Gen.C07.V4.normalized, Gen.C07.V4.normalizedNonNull] at h ⊢
   split_ifs at h ⊢ with h0
   exact ⟨Except.ok.inj h, Except.ok.inj h⟩
 
 /-- `normalizedExc` throws `std::domain_error`, exactly when `length () == 0` -/
-theorem V4_normalizedExc_error (tmin : α) (sqrt : α → α) (a : V4 α) (k : Exc) :
-    Gen.C07.V4.normalizedExc tmin sqrt a = .error k ↔ (k = Exc.domainError ∧ Gen.V4.length tmin sqrt a = 0) := by
+theorem V4_normalizedExc_error (tmin tmax : α) (sqrt : α → α) (a : V4 α) (k : Exc) :
+    Gen.C07.V4.normalizedExc tmin tmax sqrt a = .error k ↔ (k = Exc.domainError ∧ Gen.V4.length tmin tmax sqrt a = 0) := by
   simp only [Gen.C07.V4.normalizedExc]
   split_ifs with h0
   · simp [h0, eq_comm]
   · simp [h0]
 
 /-- full strength: the checked form throws exactly when the unchecked form reports failure (returns the zero vector) -/
-theorem V4_normalized_failure (tmin : α) (ht : 0 < tmin) (sqrt : α → α) (a : V4 α) :
-    Gen.C07.V4.normalizedExc tmin sqrt a = .error Exc.domainError ↔ Gen.C07.V4.normalized tmin sqrt a = ⟨0, 0, 0, 0⟩ := by
+theorem V4_normalized_failure (tmin tmax : α) (ht : 0 < tmin) (sqrt : α → α) (a : V4 α) :
+    Gen.C07.V4.normalizedExc tmin tmax sqrt a = .error Exc.domainError ↔ Gen.C07.V4.normalized tmin tmax sqrt a = ⟨0, 0, 0, 0⟩ := by
   rw [V4_normalizedExc_error]
   simp only [Gen.C07.V4.normalized, true_and]
   split_ifs with h0
@@ -202,52 +202,52 @@ theorem V4_normalized_failure (tmin : α) (ht : 0 < tmin) (sqrt : α → α) (a 
     intro hz
     apply h0
     have : a = ⟨0, 0, 0, 0⟩ := by cases a; simp_all
-    rw [this]; exact V4_length_zero tmin ht sqrt
+    rw [this]; exact V4_length_zero tmin tmax ht sqrt
 
 /-- in-place forms: `normalizeExc` returns ⇒ `normalize` and `normalizeNonNull` leave the same vector -/
-theorem V4_normalizeExc_ok (tmin : α) (sqrt : α → α) (a y : V4 α) (h : Gen.C07.V4.normalizeExc tmin sqrt a = .ok y) :
-    Gen.C07.V4.normalize tmin sqrt a = y ∧ Gen.C07.V4.normalizeNonNull tmin sqrt a = y := by
+theorem V4_normalizeExc_ok (tmin tmax : α) (sqrt : α → α) (a y : V4 α) (h : Gen.C07.V4.normalizeExc tmin tmax sqrt a = .ok y) :
+    Gen.C07.V4.normalize tmin tmax sqrt a = y ∧ Gen.C07.V4.normalizeNonNull tmin tmax sqrt a = y := by
   simp only [Gen.C07.V4.normalizeExc, Gen.C07.V4.normalize, Gen.C07.V4.normalizeNonNull] at h ⊢
   split_ifs at h ⊢ with h0
   exact ⟨Except.ok.inj h, Except.ok.inj h⟩
 
 /-- `normalizeExc` throws `std::domain_error` exactly when `length () == 0`, which is exactly when `normalize`
 reports failure by leaving the vector untouched -/
-theorem V4_normalizeExc_error (tmin : α) (sqrt : α → α) (a : V4 α) (k : Exc) :
-    Gen.C07.V4.normalizeExc tmin sqrt a = .error k ↔ (k = Exc.domainError ∧ Gen.V4.length tmin sqrt a = 0) := by
+theorem V4_normalizeExc_error (tmin tmax : α) (sqrt : α → α) (a : V4 α) (k : Exc) :
+    Gen.C07.V4.normalizeExc tmin tmax sqrt a = .error k ↔ (k = Exc.domainError ∧ Gen.V4.length tmin tmax sqrt a = 0) := by
   simp only [Gen.C07.V4.normalizeExc]
   split_ifs with h0
   · simp [h0, eq_comm]
   · simp [h0]
 
-theorem V4_normalize_failure (tmin : α) (sqrt : α → α) (a : V4 α) (h : Gen.V4.length tmin sqrt a = 0) :
-    Gen.C07.V4.normalize tmin sqrt a = a := by
+theorem V4_normalize_failure (tmin tmax : α) (sqrt : α → α) (a : V4 α) (h : Gen.V4.length tmin tmax sqrt a = 0) :
+    Gen.C07.V4.normalize tmin tmax sqrt a = a := by
   simp only [Gen.C07.V4.normalize]
   rw [if_pos h]
 
 /-- the in-place and the value forms are the same functions (three duplicated bodies each) -/
-theorem V4_inplace_eq_value (tmin : α) (sqrt : α → α) (a : V4 α) :
-    Gen.C07.V4.normalizeExc tmin sqrt a = Gen.C07.V4.normalizedExc tmin sqrt a ∧
-    Gen.C07.V4.normalizeNonNull tmin sqrt a = Gen.C07.V4.normalizedNonNull tmin sqrt a ∧
-    (Gen.V4.length tmin sqrt a ≠ 0 → Gen.C07.V4.normalize tmin sqrt a = Gen.C07.V4.normalized tmin sqrt a) := by
+theorem V4_inplace_eq_value (tmin tmax : α) (sqrt : α → α) (a : V4 α) :
+    Gen.C07.V4.normalizeExc tmin tmax sqrt a = Gen.C07.V4.normalizedExc tmin tmax sqrt a ∧
+    Gen.C07.V4.normalizeNonNull tmin tmax sqrt a = Gen.C07.V4.normalizedNonNull tmin tmax sqrt a ∧
+    (Gen.V4.length tmin tmax sqrt a ≠ 0 → Gen.C07.V4.normalize tmin tmax sqrt a = Gen.C07.V4.normalized tmin tmax sqrt a) := by
   refine ⟨rfl, rfl, fun h => ?_⟩
   simp only [Gen.C07.V4.normalize, Gen.C07.V4.normalized]
   rw [if_neg h, if_neg h]
 
 /-- well-conditioned input (non-zero length) never throws, and then all three variants agree -/
-theorem V4_normalizedExc_never (tmin : α) (sqrt : α → α) (a : V4 α) (h : Gen.V4.length tmin sqrt a ≠ 0) :
-    Gen.C07.V4.normalizedExc tmin sqrt a = .ok (Gen.C07.V4.normalized tmin sqrt a) ∧
-    Gen.C07.V4.normalizedNonNull tmin sqrt a = Gen.C07.V4.normalized tmin sqrt a := by
+theorem V4_normalizedExc_never (tmin tmax : α) (sqrt : α → α) (a : V4 α) (h : Gen.V4.length tmin tmax sqrt a ≠ 0) :
+    Gen.C07.V4.normalizedExc tmin tmax sqrt a = .ok (Gen.C07.V4.normalized tmin tmax sqrt a) ∧
+    Gen.C07.V4.normalizedNonNull tmin tmax sqrt a = Gen.C07.V4.normalized tmin tmax sqrt a := by
   simp only [Gen.C07.V4.normalizedExc, Gen.C07.V4.normalized, Gen.C07.V4.normalizedNonNull]
   rw [if_neg h, if_neg h]
   exact ⟨rfl, rfl⟩
 
 /-- non-vacuity of `0 < tmin` and `length ≠ 0` (a 3-4-5 triangle, with a function that is `sqrt` at 25) -/
-example : Gen.V2.length (1 / 1024 : ℚ) (fun x => if x = 25 then 5 else 0) ⟨3, 4⟩ ≠ 0 := by
+example : Gen.V2.length (1 / 1024 : ℚ) 1048576 (fun x => if x = 25 then 5 else 0) ⟨3, 4⟩ ≠ 0 := by
   norm_num [Gen.V2.length]
-example : Gen.V3.length (1 / 1024 : ℚ) (fun x => if x = 9 then 3 else 0) ⟨1, 2, 2⟩ ≠ 0 := by
+example : Gen.V3.length (1 / 1024 : ℚ) 1048576 (fun x => if x = 9 then 3 else 0) ⟨1, 2, 2⟩ ≠ 0 := by
   norm_num [Gen.V3.length]
-example : Gen.V4.length (1 / 1024 : ℚ) (fun x => if x = 4 then 2 else 0) ⟨1, 1, 1, 1⟩ ≠ 0 := by
+example : Gen.V4.length (1 / 1024 : ℚ) 1048576 (fun x => if x = 4 then 2 else 0) ⟨1, 1, 1, 1⟩ ≠ 0 := by
   norm_num [Gen.V4.length]
 
 /-! ## Vec3 (Vec4) vs Vec3 (Vec4, InfException) -/
